@@ -19,6 +19,8 @@ def emit(ctx, V, maxlen, maxdocs, cfgs, what, module="Cooc", simulate=None, dept
         if module == "Cooc":
             const.update(MaxLen=maxlen, MaxDocs=maxdocs, TIMED=False, Gaps=tlc.TLAExpr("{1}"),
                          Prunes=[{"excluded": tlc.TLAExpr("{}"), "mask": False}], Eps=[])
+        if module in ("CoocMulti", "CoocNgram"):
+            const.update(AllowMask=False)
         if extra_constants:
             const.update(extra_constants)
         r = tlc.run_tlc(module, const, invariants=list(invariants) + ["EmitInv"], workers=1,
